@@ -46,25 +46,30 @@ def run(ctx):
 
     # ------------------------------------------------------------------ C01-scope-capture
     ctx.rule("C01-scope-capture", "a closure captures the environment it is created in, by reference (Rc::clone)")
-    reg, _ = arm(ee, "ExpressionBody", vidx["Procedure"])
-    p = Prov(ee)
-    users = [(b, s) for b, i, s, a, v in mir.aggregates(ee, reg, "values::Procedure") if v == "User"]
-    if len(users) != 1:
-        ctx.report("C01-scope-capture", "shape", "expected one Procedure::User construction in the lambda arm, found %d" % len(users), where_of(ee))
-    else:
-        b, s = users[0]
-        envop = s["rv"]["ops"][1]
-        ar = p.arg_roots(envop)
-        cr = {c for _, c in p.call_roots(envop)}
-        clones = [callee(t) for _, t in ee.calls(reg) if (callee(t) or "").endswith("::clone")]
-        ctx.inst("C01-scope-capture", "eval_expression/lambda", {"env_arg_roots": sorted(ar), "env_call_roots": sorted(cr), "clones": clones})
-        if ar != {2} or cr:
-            ctx.report("C01-scope-capture", "env", "the captured environment derives from parameters %s / calls %s, expected "
-                       "only the `env` parameter" % (sorted(ar), sorted(cr)), where_of(ee, span=s["span"]))
-        bad = [c for c in clones if "LexicalScope" in c]
-        fresh = [callee(t) for _, t in ee.calls(reg) if callee_matches(t, "std::rc::Rc::new", "LexicalScope::new", "LexicalScope::new_child")]
-        if bad or fresh or "<std::rc::Rc as std::clone::Clone>::clone" not in clones:
-            ctx.report("C01-scope-capture", "copy", "the environment is copied (%s) instead of shared by Rc::clone" % (bad + fresh), where_of(ee))
+    from . import evaltables
+    d_lambda = evaltables.rule_lambda(ctx, "C01-scope-capture")
+    def _old_capture():
+        reg, _ = arm(ee, "ExpressionBody", vidx["Procedure"])
+        p = Prov(ee)
+        users = [(b, s) for b, i, s, a, v in mir.aggregates(ee, reg, "values::Procedure") if v == "User"]
+        if len(users) != 1:
+            ctx.report("C01-scope-capture", "shape", "expected one Procedure::User construction in the lambda arm, found %d" % len(users), where_of(ee))
+        else:
+            b, s = users[0]
+            envop = s["rv"]["ops"][1]
+            ar = p.arg_roots(envop)
+            cr = {c for _, c in p.call_roots(envop)}
+            clones = [callee(t) for _, t in ee.calls(reg) if (callee(t) or "").endswith("::clone")]
+            ctx.inst("C01-scope-capture", "eval_expression/lambda", {"env_arg_roots": sorted(ar), "env_call_roots": sorted(cr), "clones": clones})
+            if ar != {2} or cr:
+                ctx.report("C01-scope-capture", "env", "the captured environment derives from parameters %s / calls %s, expected "
+                           "only the `env` parameter" % (sorted(ar), sorted(cr)), where_of(ee, span=s["span"]))
+            bad = [c for c in clones if "LexicalScope" in c]
+            fresh = [callee(t) for _, t in ee.calls(reg) if callee_matches(t, "std::rc::Rc::new", "LexicalScope::new", "LexicalScope::new_child")]
+            if bad or fresh or "<std::rc::Rc as std::clone::Clone>::clone" not in clones:
+                ctx.report("C01-scope-capture", "copy", "the environment is copied (%s) instead of shared by Rc::clone" % (bad + fresh), where_of(ee))
+    ctx.guarded('C01-scope-capture', d_lambda, _old_capture)
+
     for f in fb.all("lib"):
         if f.derived:
             continue
@@ -74,37 +79,42 @@ def run(ctx):
 
     # ------------------------------------------------------------------ C01-scope-extend
     ctx.rule("C01-scope-extend", "the body of a user procedure runs in a child of the closure's frame")
-    # where the body frame comes from (position-independent: created in apply_scheme_procedure or handed in by the trampoline)
-    from . import frames
-    fr = frames.analyse(fb)
-    for key, detail in fr.instances:
-        ctx.inst("C01-scope-extend", key, detail)
-    ctx.inst("C01-scope-extend", "frame-provenance-case", {"case": fr.case, "created_in": sorted(fr.makers)})
-    ctx.oblige(not fr.problems)
-    for key, msg, where in fr.problems:
-        ctx.report("C01-scope-extend", key, msg, where)
-    pa = Prov(asp)
-    for c in fb.closures_of(asp):
-        for b, t in c.calls():
-            if callee_matches(t, "LexicalScope::define"):
-                root, path = field_path(c, _through_deref(c, t["args"][0]))
-                # receiver is a capture (parameter 1 = closure env); the capture must be the child frame
-                ctx.inst("C01-scope-extend", "%s/define" % c.name.rsplit("::", 1)[-1], {"receiver_root": root})
-                if root != 1:
-                    ctx.report("C01-scope-extend", "closure-define-target", "formals are bound through %s" % root, where_of(c, t))
-    # formals / definitions / expressions handed to apply_scheme_procedure come from the procedure being applied
-    psw = next(iter(mir.discriminant_switches(ap, "values::Procedure")), None)
-    calls = [(b, t) for b, t in ap.calls() if callee(t) == asp.name]
-    if not psw or len(calls) != 1:
-        ctx.report("C01-scope-extend", "apply_procedure/shape", "shape not recognised", where_of(ap))
-    else:
-        P = psw[1]["local"]
-        b, t = calls[0]
-        for k, want in ((0, ["User", 0, 0]), (1, ["User", 0, 1]), (2, ["User", 0, 2])):
-            r, pth = field_path(ap, _through_deref(ap, t["args"][k]))
-            if r != P or pth[-3:] != want:
-                ctx.report("C01-scope-extend", "apply_procedure/component-%d" % k, "argument %d of apply_scheme_procedure is not "
-                           "component %s of the applied procedure" % (k, want), where_of(ap, t))
+    # decision table of the application (evaltables.py): one fresh frame per application, child of the captured environment;
+    # parameters, rest list, internal definitions and body all use it
+    d_app = evaltables.rule_application(ctx, "C01-scope-extend", {"frame", "bind"})
+    def _old_extend():
+        # where the body frame comes from (position-independent: created in apply_scheme_procedure or handed in by the trampoline)
+        from . import frames
+        fr = frames.analyse(fb)
+        for key, detail in fr.instances:
+            ctx.inst("C01-scope-extend", key, detail)
+        ctx.inst("C01-scope-extend", "frame-provenance-case", {"case": fr.case, "created_in": sorted(fr.makers)})
+        ctx.oblige(not fr.problems)
+        for key, msg, where in fr.problems:
+            ctx.report("C01-scope-extend", key, msg, where)
+        pa = Prov(asp)
+        for c in fb.closures_of(asp):
+            for b, t in c.calls():
+                if callee_matches(t, "LexicalScope::define"):
+                    root, path = field_path(c, _through_deref(c, t["args"][0]))
+                    # receiver is a capture (parameter 1 = closure env); the capture must be the child frame
+                    ctx.inst("C01-scope-extend", "%s/define" % c.name.rsplit("::", 1)[-1], {"receiver_root": root})
+                    if root != 1:
+                        ctx.report("C01-scope-extend", "closure-define-target", "formals are bound through %s" % root, where_of(c, t))
+        # formals / definitions / expressions handed to apply_scheme_procedure come from the procedure being applied
+        psw = next(iter(mir.discriminant_switches(ap, "values::Procedure")), None)
+        calls = [(b, t) for b, t in ap.calls() if callee(t) == asp.name]
+        if not psw or len(calls) != 1:
+            ctx.report("C01-scope-extend", "apply_procedure/shape", "shape not recognised", where_of(ap))
+        else:
+            P = psw[1]["local"]
+            b, t = calls[0]
+            for k, want in ((0, ["User", 0, 0]), (1, ["User", 0, 1]), (2, ["User", 0, 2])):
+                r, pth = field_path(ap, _through_deref(ap, t["args"][k]))
+                if r != P or pth[-3:] != want:
+                    ctx.report("C01-scope-extend", "apply_procedure/component-%d" % k, "argument %d of apply_scheme_procedure is not "
+                               "component %s of the applied procedure" % (k, want), where_of(ap, t))
+    ctx.guarded('C01-scope-extend', d_app, _old_extend)
 
     # ------------------------------------------------------------------ C01-innermost
     ctx.rule("C01-innermost", "lookup finds the innermost binding; define writes only the own frame")
@@ -139,62 +149,72 @@ def run(ctx):
         if f.name not in live:
             ctx.note("%s is not reachable from the evaluator (dead code on this tree): not analysed" % f.name)
             continue
-        ncond += conditional_rule(ctx, fb, f, vidx, ab.name, ee.name)
+        if f.name in (ee.name, ete.name):
+            ncond += 1 if evaltables.rule_conditional(ctx, "C01-truthiness", f) else 0
+        else:
+            ncond += conditional_rule(ctx, fb, f, vidx, ab.name, ee.name)
     if ncond < 2:
-        ctx.report("C01-truthiness", "floor", "expected the conditional evaluators (found %d)" % ncond)
+        ctx.undecided("C01-truthiness", "floor", "the conditional tables of the two evaluators were not both decided (%d)" % ncond)
     # other users of truthiness must go through as_boolean too (no ad-hoc tests on Value::Boolean in the evaluator)
 
     # ------------------------------------------------------------------ C01-once
     ctx.rule("C01-once", "operator and operands are evaluated exactly once, outside loops, before the application")
-    reg, _ = arm(ee, "ExpressionBody", vidx["ProcedureCall"])
-    once_rule(ctx, fb, ee, reg, ee.name, ap.name, ("ProcedureCall", 0), ("ProcedureCall", 1), "eval_expression")
-    once_rule(ctx, fb, epc, set(epc.reachable(0)), ee.name, None, ("arg", 1), ("arg", 2), "eval_procedure_call")
-    # apply_procedure is given the evaluated operator and the collected operands
-    for b, t in ee.calls(reg):
-        if callee(t) == ap.name:
-            pr = Prov(ee)
-            r0 = {c for _, c in pr.call_roots(t["args"][0])}
-            tr = pr.taint_calls(mir.op_local(t["args"][1]))
-            ctx.inst("C01-once", "eval_expression/apply-args", {"procedure_from": sorted(r0), "args_collected": "std::iter::Iterator::collect" in tr})
-            if r0 != {ee.name} or "std::iter::Iterator::collect" not in tr:
-                ctx.report("C01-once", "eval_expression/apply-args", "apply_procedure is not fed the evaluated operator and the "
-                           "collected operands", where_of(ee, t))
+    d_once = evaltables.rule_once(ctx, "C01-once")
+    def _old_once():
+        reg, _ = arm(ee, "ExpressionBody", vidx["ProcedureCall"])
+        once_rule(ctx, fb, ee, reg, ee.name, ap.name, ("ProcedureCall", 0), ("ProcedureCall", 1), "eval_expression")
+        once_rule(ctx, fb, epc, set(epc.reachable(0)), ee.name, None, ("arg", 1), ("arg", 2), "eval_procedure_call")
+        # apply_procedure is given the evaluated operator and the collected operands
+        for b, t in ee.calls(reg):
+            if callee(t) == ap.name:
+                pr = Prov(ee)
+                r0 = {c for _, c in pr.call_roots(t["args"][0])}
+                tr = pr.taint_calls(mir.op_local(t["args"][1]))
+                ctx.inst("C01-once", "eval_expression/apply-args", {"procedure_from": sorted(r0), "args_collected": "std::iter::Iterator::collect" in tr})
+                if r0 != {ee.name} or "std::iter::Iterator::collect" not in tr:
+                    ctx.report("C01-once", "eval_expression/apply-args", "apply_procedure is not fed the evaluated operator and the "
+                               "collected operands", where_of(ee, t))
+    ctx.guarded('C01-once', d_once, _old_once)
 
     # ------------------------------------------------------------------ C01-defs-first
     ctx.rule("C01-defs-first", "internal definitions are established before any body expression runs")
-    D, E = [], []
-    for b, t in asp.calls():
-        if callee(t) in (ee.name, ete.name):
-            ar = _expr_source_args(asp, pa, t["args"][0])
-            if ar == {2}:
-                D.append((b, t))
-            elif ar == {3}:
-                E.append((b, t))
-            else:
-                ctx.report("C01-defs-first", "source", "a form evaluated by apply_scheme_procedure comes from parameters %s" % sorted(ar), where_of(asp, t))
-    ctx.inst("C01-defs-first", "apply_scheme_procedure", {"definition_evals": len(D), "body_evals": len(E)})
-    if not D or len(E) < 2:
-        ctx.report("C01-defs-first", "shape", "expected definition and body evaluation sites (found %d, %d)" % (len(D), len(E)), where_of(asp))
-    for eb, et in E:
+    d_order = evaltables.rule_application(ctx, "C01-defs-first", {"order"})
+    def _old_defs():
+        pa = Prov(asp)
+        D, E = [], []
+        for b, t in asp.calls():
+            if callee(t) in (ee.name, ete.name):
+                ar = _expr_source_args(asp, pa, t["args"][0])
+                if ar == {2}:
+                    D.append((b, t))
+                elif ar == {3}:
+                    E.append((b, t))
+                else:
+                    ctx.report("C01-defs-first", "source", "a form evaluated by apply_scheme_procedure comes from parameters %s" % sorted(ar), where_of(asp, t))
+        ctx.inst("C01-defs-first", "apply_scheme_procedure", {"definition_evals": len(D), "body_evals": len(E)})
+        if not D or len(E) < 2:
+            ctx.report("C01-defs-first", "shape", "expected definition and body evaluation sites (found %d, %d)" % (len(D), len(E)), where_of(asp))
+        for eb, et in E:
+            for db, dt in D:
+                if db in asp.reachable(eb):
+                    ctx.report("C01-defs-first", "order", "a body expression can be evaluated before an internal definition", where_of(asp, et))
         for db, dt in D:
-            if db in asp.reachable(eb):
-                ctx.report("C01-defs-first", "order", "a body expression can be evaluated before an internal definition", where_of(asp, et))
-    for db, dt in D:
-        # value is defined under the definition's name in the same iteration
-        defs = [(b, t) for b, t in asp.calls(asp.reachable(db)) if callee_matches(t, "LexicalScope::define")
-                and ("call", db, callee(dt)) in pa.op_roots(t["args"][2])]
-        if not defs:
-            ctx.report("C01-defs-first", "bind", "the value of an internal definition is not bound", where_of(asp, dt))
-    # last expression -> tail evaluator, the others -> eval_expression, all in order (split_last)
-    sl = [(b, t) for b, t in asp.calls() if callee_matches(t, "<impl [T]>::split_last")]
-    tails = [(b, t) for b, t in E if callee(t) == ete.name]
-    if len(sl) != 1 or len(tails) != 1:
-        ctx.report("C01-defs-first", "body-shape", "body is not split into leading expressions and a tail expression", where_of(asp))
-    else:
-        r, pth = field_path(asp, tails[0][1]["args"][0])
-        ctx.inst("C01-defs-first", "tail-expression", {"path": pth})
-        if pth[-3:] != ["Some", 0, 0]:
-            ctx.report("C01-defs-first", "tail-is-last", "the tail evaluator is not given the *last* body expression", where_of(asp, tails[0][1]))
+            # value is defined under the definition's name in the same iteration
+            defs = [(b, t) for b, t in asp.calls(asp.reachable(db)) if callee_matches(t, "LexicalScope::define")
+                    and ("call", db, callee(dt)) in pa.op_roots(t["args"][2])]
+            if not defs:
+                ctx.report("C01-defs-first", "bind", "the value of an internal definition is not bound", where_of(asp, dt))
+        # last expression -> tail evaluator, the others -> eval_expression, all in order (split_last)
+        sl = [(b, t) for b, t in asp.calls() if callee_matches(t, "<impl [T]>::split_last")]
+        tails = [(b, t) for b, t in E if callee(t) == ete.name]
+        if len(sl) != 1 or len(tails) != 1:
+            ctx.report("C01-defs-first", "body-shape", "body is not split into leading expressions and a tail expression", where_of(asp))
+        else:
+            r, pth = field_path(asp, tails[0][1]["args"][0])
+            ctx.inst("C01-defs-first", "tail-expression", {"path": pth})
+            if pth[-3:] != ["Some", 0, 0]:
+                ctx.report("C01-defs-first", "tail-is-last", "the tail evaluator is not given the *last* body expression", where_of(asp, tails[0][1]))
+    ctx.guarded('C01-defs-first', d_order, _old_defs)
 
     # ------------------------------------------------------------------ C01-dispatch
     ctx.rule("C01-dispatch", "every core form has a handler")
@@ -218,57 +238,10 @@ def run(ctx):
         tg = [targets.get(i, other) for i, _ in variants]
         if len(variants) != n:
             ctx.note("%s now has %d variants (was %d)" % (adt, len(variants), n))
-    # tail evaluator, form by form (abstract evaluation, independent of how the function is written): a call becomes a
-    # pending tail call that carries the same operator, operands and environment; every other form except the conditional
-    # (C01-truthiness) is evaluated by eval_expression on the same expression in the same environment and that value returned
-    evars = fb.adt("parser::parser::ExpressionBody")["variants"]
-    for v in evars:
-        vn, vi = v["name"], v["i"]
-        if vn == "Conditional":
-            continue
-        fields = [Tok("field", "%s.%d" % (vn, k)) for k in range(len(v["fields"]))]
-        expr = [absint.Enum(vi, fields), absint.UNKNOWN]
-        envtok = Tok("env", "env")
-        events = []
-
-        def oracle(ff, bb, tt, env, expr=expr, events=events):
-            c = callee(tt) or ""
-            a0 = absint.operand(env, tt["args"][0]) if tt["args"] else None
-            if c in (ee.name, ete.name, epc.name, ap.name):
-                a1 = absint.operand(env, tt["args"][1]) if len(tt["args"]) > 1 else None
-                events.append((c.rsplit("::", 1)[-1], a0 is expr, a1))
-                r = absint.Enum(0, [Tok("value-of", "expr" if a0 is expr else "other")])
-                r.name = "Ok"
-                return r
-            if c.endswith("std::ops::Try>::branch"):
-                return absint.Enum(a0.variant, list(a0.fields)) if isinstance(a0, absint.Enum) else absint.UNKNOWN
-            if callee_matches(tt, "std::convert::AsRef>::as_ref", "std::ops::Deref>::deref", "std::borrow::Borrow>::borrow",
-                              "<std::rc::Rc as std::clone::Clone>::clone"):
-                return a0
-            return None
-        key = "eval_tail_expression/%s" % vn
-        try:
-            kind, b, env2 = absint.run_fragment(ete, 0, {1: expr, 2: envtok}, oracle=oracle, max_visits=6)
-            res = env2.get(0)
-        except (absint.Stuck, absint.Loop) as e:
-            ctx.oblige(False)
-            ctx.report("C01-dispatch", key, "cannot follow the tail evaluator on a %s form (%s)" % (vn, e), where_of(ete))
-            continue
-        ctx.inst("C01-dispatch", key, {"events": [[x[0], x[1]] for x in events], "result": repr(res)[:100]})
-        if vn == "ProcedureCall":
-            ok = not events and all(_contains(res, lambda x, t=t: x is t) for t in fields + [envtok])
-            ctx.oblige(ok)
-            if not ok:
-                ctx.report("C01-dispatch", key, "a call in tail position must become a pending call carrying the same operator, "
-                           "operands and environment (evaluations %s, result %s)" % ([x[0] for x in events], repr(res)[:100]), where_of(ete))
-        else:
-            ok = len(events) == 1 and events[0][0] == "eval_expression" and events[0][1] and events[0][2] is envtok and \
-                _contains(res, lambda x: isinstance(x, Tok) and x.kind == "value-of" and x.tag == "expr")
-            ctx.oblige(ok)
-            if not ok:
-                ctx.report("C01-dispatch", key, "a %s form in tail position is not evaluated by eval_expression on the same "
-                           "expression and environment with that value returned (evaluations %s, result %s)" % (
-                               vn, [(x[0], x[1]) for x in events], repr(res)[:100]), where_of(ete))
+    # tail evaluator, form by form (evaltables.rule_tail_dispatch): a call becomes a pending tail call that carries the same
+    # operator, operands and environment; every other form except the conditional (C01-truthiness) is evaluated by
+    # eval_expression on the same expression in the same environment and that value returned
+    evaltables.rule_tail_dispatch(ctx, "C01-dispatch")
 
     # ------------------------------------------------------------------ C01-apply-spread
     ctx.rule("C01-apply-spread", "apply spreads only its last argument, through the common application path")
@@ -462,9 +435,8 @@ def conditional_rule(ctx, fb, f, vidx, as_boolean, eval_expression):
                 res = env.get(0)
             except (absint.Stuck, absint.Loop) as e:
                 ctx.inst("C01-truthiness", key, {"events": [list(x) for x in events], "result": "stuck"})
-                ctx.oblige(False)
-                ctx.report("C01-truthiness", key, "cannot follow the conditional evaluator on (if T C%s) with a %s test (%s): the "
-                           "branch is not decided by as_boolean(value of the test)" % (" A" if has_alt else "", truth, e), where_of(f))
+                ctx.undecided("C01-truthiness", key, "cannot follow the conditional evaluator on (if T C%s) with a %s test (%s)" % (
+                    " A" if has_alt else "", truth, e), where_of(f))
                 continue
             evs = [x for x in events if x[0] in ("eval", "tail")]
             want_arm = "C" if truth else ("A" if has_alt else None)
